@@ -49,16 +49,18 @@ auto compact_theta_sketch_parser<dummy>::parse(const void* ptr, size_t size, uin
       theta = reinterpret_cast<const uint64_t*>(ptr)[COMPACT_SKETCH_V4_THETA_U64];
     }
     const uint8_t num_entries_bytes = reinterpret_cast<const uint8_t*>(ptr)[COMPACT_SKETCH_V4_NUM_ENTRIES_BYTES_BYTE];
+    if (num_entries_bytes > sizeof(uint32_t)) throw std::invalid_argument("possible corruption: " + std::to_string(num_entries_bytes) + " bytes of number of entries, but at most 4 expected");
     size_t data_offset_bytes = has_theta ? COMPACT_SKETCH_V4_PACKED_DATA_ESTIMATION_BYTE : COMPACT_SKETCH_V4_PACKED_DATA_EXACT_BYTE;
     check_memory_size(ptr, size, data_offset_bytes + num_entries_bytes, dump_on_error);
     uint32_t num_entries = 0;
     const uint8_t* num_entries_ptr = reinterpret_cast<const uint8_t*>(ptr) + data_offset_bytes;
     for (unsigned i = 0; i < num_entries_bytes; ++i) {
-      num_entries |= (*num_entries_ptr++) << (i << 3);
+      num_entries |= static_cast<uint32_t>(*num_entries_ptr++) << (i << 3);
     }
     data_offset_bytes += num_entries_bytes;
     const uint8_t entry_bits = reinterpret_cast<const uint8_t*>(ptr)[COMPACT_SKETCH_V4_ENTRY_BITS_BYTE];
-    const size_t expected_bits = entry_bits * num_entries;
+    if (entry_bits < 1 || entry_bits > 63) throw std::invalid_argument("possible corruption: " + std::to_string(entry_bits) + " bits per entry, but 1 to 63 expected");
+    const size_t expected_bits = static_cast<size_t>(entry_bits) * num_entries;
     const size_t expected_size_bytes = data_offset_bytes + whole_bytes_to_hold_bits(expected_bits);
     check_memory_size(ptr, size, expected_size_bytes, dump_on_error);
     return {false, true, seed_hash, num_entries, theta,
@@ -80,6 +82,7 @@ auto compact_theta_sketch_parser<dummy>::parse(const void* ptr, size_t size, uin
         check_memory_size(ptr, size, 16, dump_on_error);
         return {false, true, seed_hash, 1, theta, reinterpret_cast<const uint64_t*>(ptr) + COMPACT_SKETCH_SINGLE_ENTRY_U64, 64};
       }
+      check_memory_size(ptr, size, (COMPACT_SKETCH_NUM_ENTRIES_U32 + 1) * sizeof(uint32_t), dump_on_error);
       const uint32_t num_entries = reinterpret_cast<const uint32_t*>(ptr)[COMPACT_SKETCH_NUM_ENTRIES_U32];
       const size_t entries_start_u64 = has_theta ? COMPACT_SKETCH_ENTRIES_ESTIMATION_U64 : COMPACT_SKETCH_ENTRIES_EXACT_U64;
       const uint64_t* entries = reinterpret_cast<const uint64_t*>(ptr) + entries_start_u64;
@@ -90,6 +93,7 @@ auto compact_theta_sketch_parser<dummy>::parse(const void* ptr, size_t size, uin
   }
   case 1:  {
       uint16_t seed_hash = compute_seed_hash(seed);
+      check_memory_size(ptr, size, (COMPACT_SKETCH_THETA_U64 + 1) * sizeof(uint64_t), dump_on_error);
       const uint32_t num_entries = reinterpret_cast<const uint32_t*>(ptr)[COMPACT_SKETCH_NUM_ENTRIES_U32];
       uint64_t theta = reinterpret_cast<const uint64_t*>(ptr)[COMPACT_SKETCH_THETA_U64];
       bool is_empty = (num_entries == 0) && (theta == theta_constants::MAX_THETA);
@@ -106,6 +110,7 @@ auto compact_theta_sketch_parser<dummy>::parse(const void* ptr, size_t size, uin
       if (preamble_size == 1) {
           return {true, true, seed_hash, 0, theta_constants::MAX_THETA, nullptr, 64};
       } else if (preamble_size == 2) {
+          check_memory_size(ptr, size, (COMPACT_SKETCH_NUM_ENTRIES_U32 + 1) * sizeof(uint32_t), dump_on_error);
           const uint32_t num_entries = reinterpret_cast<const uint32_t*>(ptr)[COMPACT_SKETCH_NUM_ENTRIES_U32];
           if (num_entries == 0) {
               return {true, true, seed_hash, 0, theta_constants::MAX_THETA, nullptr, 64};
@@ -116,6 +121,7 @@ auto compact_theta_sketch_parser<dummy>::parse(const void* ptr, size_t size, uin
               return {false, true, seed_hash, num_entries, theta_constants::MAX_THETA, entries, 64};
           }
       } else if (preamble_size == 3) {
+          check_memory_size(ptr, size, (COMPACT_SKETCH_THETA_U64 + 1) * sizeof(uint64_t), dump_on_error);
           const uint32_t num_entries = reinterpret_cast<const uint32_t*>(ptr)[COMPACT_SKETCH_NUM_ENTRIES_U32];
           uint64_t theta = reinterpret_cast<const uint64_t*>(ptr)[COMPACT_SKETCH_THETA_U64];
           bool is_empty = (num_entries == 0) && (theta == theta_constants::MAX_THETA);
